@@ -10,7 +10,7 @@ ok = res['demo_clean'] == 0 and res['demo_mutated'] == 1 and res['tests'].starts
 dst = os.path.join('/verif/seeded', name)
 os.makedirs(dst, exist_ok=True)
 for f in ('patch.diff', 'demo.py', 'notes.txt'):
-    if os.path.exists(os.path.join(src, f)):
+    if os.path.exists(os.path.join(src, f)) and os.path.abspath(src) != os.path.abspath(dst):
         shutil.copy(os.path.join(src, f), os.path.join(dst, f))
 notes = open(os.path.join(src, 'notes.txt')).read() if os.path.exists(os.path.join(src, 'notes.txt')) else ''
 meta = dict(breaks_property=prop, confirmed=ok, needs_to_manifest=notes[:1500],
